@@ -46,8 +46,10 @@ func init() {
 	wrap("C03", c03R11, "R11 (added, F-C03-3): the message handed to Cache.prefetchExchange has had every EDNS Client Subnet option removed from its OPT (or has no OPT, or the entry being refreshed is scoped) on every path — the refresh of a shared entry must not be tailored to the subnet of whichever client's hit triggered it.")
 }
 
-func c03R11(c *Ctx) {
-	const R = "C03-R11"
+func c03R11(c *Ctx) { c03R11as(c, "C03-R11") }
+
+// c03R11as runs the rule under the given rule id (the clause is claimed by two properties).
+func c03R11as(c *Ctx, R string) {
 	c.Doc(R, "every call of Cache.prefetchExchange(ctx, M) is reachable only across (a) a store M.IsEdns0().Option = V with V free of ECS options by construction (nil / empty / appends only behind the not-*dns.EDNS0_SUBNET edge, directly or as the result of a same-package filter), (b) a same-package call that does so for M on every path, (c) the edge M.IsEdns0() == nil, or (d) the edge (*CacheEntry).scoped() == true; or M is built in the function itself — a refresh that ReplaceIfCurrent files under the shared entry's key must not carry the subnet of the client whose hit claimed it")
 	pfx := c.fobj(R, c03Pkg+".(*Cache).prefetchExchange")
 	isEdns0 := c.fobj(R, "github.com/miekg/dns.(*Msg).IsEdns0")
